@@ -235,7 +235,7 @@ def _run_sweep(desc, V):
     cfg = dict(desc['cfg'])
     route = desc['route']
     if route == 'wrapper':
-        cfg['wrapper'] = 'identity'
+        cfg['wrapper'] = 'identity' if len(desc['ka']) % 2 else 'closure'
     alg = make_alg(cfg)
     regs = {}
     a = mv(alg, V, 'a', desc['ka'])
@@ -304,7 +304,7 @@ def _run_perm(desc, V):
     cfg = dict(desc['cfg'])
     route, op, arity = desc['route'], desc['op'], desc['arity']
     if route == 'wrapper':
-        cfg['wrapper'] = 'wraps'
+        cfg['wrapper'] = 'wraps' if len(desc['perms']) % 2 else 'closure'
     if route == 'reentrant':
         cfg['wrapper'] = 'reentrant'
         route = 'wrapper'
